@@ -271,3 +271,16 @@ Definition rn_a256_f0 (i : N) : N := i.
 Definition rn_a256_new (i : N) : N := i.
 (* core::str::from_utf8_unchecked: bytes and strings are both byte lists here *)
 Definition rn_from_utf8_unchecked (b : list N) : list N := b.
+
+(* enum Color { Ansi(AnsiColor), Ansi256(Ansi256Color), Rgb(RgbColor) } with the payloads as the
+   translator sees them ([color] of Model/Style.v spreads the three components of Rgb) *)
+Inductive rn_color_view : Set :=
+  | RvAnsi (a : ansi_color)
+  | RvAnsi256 (i : N)
+  | RvRgb (c : N * N * N).
+Definition rn_color_view_of (c : color) : rn_color_view :=
+  match c with
+  | CoAnsi a => RvAnsi a
+  | CoAnsi256 n => RvAnsi256 n
+  | CoRgb r g b => RvRgb (r, g, b)
+  end.
